@@ -104,31 +104,64 @@ def pCapData : P := fun bs => match rdBE bs 0 4 with
     else none
   | none => none
 
-/-- response parameter grammar per command code; `none` = command not in the table (only the frame is checked) -/
-def respParams (cc : Nat) : Option (List P) :=
-  let none0 : List Nat := [0x11F, 0x120, 0x121, 0x122, 0x124, 0x125, 0x126, 0x127, 0x128, 0x129, 0x12A, 0x12C, 0x12D, 0x12E, 0x130,
+/-- TPMT_KDF_SCHEME: scheme, then a hash unless the scheme is NULL -/
+def pKdfScheme : P := fun bs => match rdBE bs 0 2 with
+  | some alg => if alg = 0x0010 then pN 2 bs else pN 4 bs
+  | none => none
+/-- TPMT_ECC_SCHEME: scheme; a hash unless NULL; ECDAA adds a count -/
+def pEccScheme : P := fun bs => match rdBE bs 0 2 with
+  | some alg => if alg = 0x0010 then pN 2 bs else if alg = 0x001A then pN 6 bs else pN 4 bs
+  | none => none
+/-- TPMS_ALGORITHM_DETAIL_ECC -/
+def pEccDetail : P := pSeq [pU16, pU16, pKdfScheme, pEccScheme, pB2, pB2, pB2, pB2, pB2, pB2, pB2]
+
+/-- commands whose success response has no parameters -/
+def noParamCCs : List Nat := [0x11F, 0x120, 0x121, 0x122, 0x124, 0x125, 0x126, 0x127, 0x128, 0x129, 0x12A, 0x12C, 0x12D, 0x12E, 0x130,
     0x132, 0x134, 0x135, 0x136, 0x137, 0x138, 0x139, 0x13A, 0x13B, 0x13D, 0x140, 0x143, 0x144, 0x145, 0x146, 0x149, 0x14F, 0x15C, 0x165,
-    0x16A, 0x16B, 0x16C, 0x16D, 0x16E, 0x16F, 0x170, 0x171, 0x172, 0x17F, 0x180, 0x182, 0x183, 0x188, 0x18A, 0x18C, 0x18F, 0x190]
-  if none0.contains cc then some []
-  else if cc = 0x17B ∨ cc = 0x155 ∨ cc = 0x14E ∨ cc = 0x189 ∨ cc = 0x15E ∨ cc = 0x174 ∨ cc = 0x159 ∨ cc = 0x154 ∨ cc = 0x150 then some [pB2]
-  else if cc = 0x17C then some [pB2, pU32]
-  else if cc = 0x17A then some [pU8, pCapData]
-  else if cc = 0x181 then some [pTimeInfo]
-  else if cc = 0x17D ∨ cc = 0x13E then some [pB2, pTicket]
-  else if cc = 0x176 ∨ cc = 0x157 ∨ cc = 0x167 then some [pB2]           -- (+ response handle)
-  else if cc = 0x131 then some [pB2, pB2, pB2, pTicket, pB2]              -- CreatePrimary (+ handle)
-  else if cc = 0x153 then some [pB2, pB2, pB2, pB2, pTicket]              -- Create
-  else if cc = 0x173 then some [pB2, pB2, pB2]
-  else if cc = 0x162 then some [pContext]
+    0x16A, 0x16B, 0x16C, 0x16D, 0x16E, 0x16F, 0x170, 0x171, 0x172, 0x17F, 0x180, 0x182, 0x183, 0x188, 0x18A, 0x18C, 0x18F, 0x190,
+    0x13F, 0x187, 0x192, 0x19B, 0x19C]
+
+/-- the atoms of the response grammar -/
+inductive G where
+  | b2 | u8 | u16 | u32 | u64 | ticket | context | signature | capData | timeInfo | digestValues | pcrSel | digests | eccDetail | algList
+  deriving DecidableEq, Repr
+
+def G.parser : G → P
+  | .b2 => pB2 | .u8 => pU8 | .u16 => pU16 | .u32 => pU32 | .u64 => pU64 | .ticket => pTicket | .context => pContext
+  | .signature => pSignature | .capData => pCapData | .timeInfo => pTimeInfo | .digestValues => pDigestValues | .pcrSel => pPcrSel
+  | .digests => pDigests | .eccDetail => pEccDetail | .algList => pList32 pU16
+
+/-- response parameter grammar per command code; `none` = command not in the table (only the frame is checked) -/
+def respGrammar (cc : Nat) : Option (List G) :=
+  if noParamCCs.contains cc then some []
+  else if cc = 0x17B ∨ cc = 0x155 ∨ cc = 0x14E ∨ cc = 0x189 ∨ cc = 0x15E ∨ cc = 0x174 ∨ cc = 0x159 ∨ cc = 0x154 ∨ cc = 0x150 ∨ cc = 0x147 ∨ cc = 0x19A ∨ cc = 0x156 then some [.b2]
+  else if cc = 0x17C then some [.b2, .u32]
+  else if cc = 0x17A then some [.u8, .capData]
+  else if cc = 0x181 then some [.timeInfo]
+  else if cc = 0x17D ∨ cc = 0x13E then some [.b2, .ticket]
+  else if cc = 0x176 ∨ cc = 0x157 ∨ cc = 0x167 then some [.b2]           -- (+ response handle)
+  else if cc = 0x131 then some [.b2, .b2, .b2, .ticket, .b2]              -- CreatePrimary (+ handle)
+  else if cc = 0x153 then some [.b2, .b2, .b2, .b2, .ticket]              -- Create
+  else if cc = 0x173 then some [.b2, .b2, .b2]
+  else if cc = 0x162 then some [.context]
   else if cc = 0x161 ∨ cc = 0x186 ∨ cc = 0x15B then some []               -- (+ response handle)
-  else if cc = 0x185 ∨ cc = 0x13C then some [pDigestValues]
-  else if cc = 0x17E then some [pU32, pPcrSel, pDigests]
-  else if cc = 0x12B then some [pU8, pU32, pU32, pU32]
-  else if cc = 0x169 ∨ cc = 0x164 ∨ cc = 0x193 ∨ cc = 0x163 then some [pB2, pB2]
-  else if cc = 0x15D then some [pSignature]
-  else if cc = 0x177 then some [pTicket]
-  else if cc = 0x158 ∨ cc = 0x184 then some [pB2, pSignature]
+  else if cc = 0x185 ∨ cc = 0x13C then some [.digestValues]
+  else if cc = 0x17E then some [.u32, .pcrSel, .digests]
+  else if cc = 0x12B then some [.u8, .u32, .u32, .u32]
+  else if cc = 0x169 ∨ cc = 0x164 ∨ cc = 0x193 ∨ cc = 0x163 ∨ cc = 0x168 ∨ cc = 0x18D ∨ cc = 0x152 then some [.b2, .b2]
+  else if cc = 0x199 ∨ cc = 0x14B ∨ cc = 0x191 then some [.b2, .b2, .b2]      -- ECC_Encrypt, Duplicate, CreateLoaded (+ handle)
+  else if cc = 0x18E then some [.b2, .u16]                                  -- EC_Ephemeral
+  else if cc = 0x18B then some [.b2, .b2, .b2, .u16]                        -- Commit
+  else if cc = 0x160 ∨ cc = 0x151 then some [.b2, .ticket]                  -- PolicySigned, PolicySecret
+  else if cc = 0x142 then some [.algList]                               -- IncrementalSelfTest
+  else if cc = 0x178 then some [.eccDetail]                                 -- ECC_Parameters
+  else if cc = 0x197 then some [.b2, .b2, .signature]                       -- CertifyX509
+  else if cc = 0x15D then some [.signature]
+  else if cc = 0x177 then some [.ticket]
+  else if cc = 0x158 ∨ cc = 0x184 ∨ cc = 0x14C ∨ cc = 0x148 ∨ cc = 0x14A ∨ cc = 0x14D ∨ cc = 0x133 then some [.b2, .signature]
   else none
+
+def respParams (cc : Nat) : Option (List P) := (respGrammar cc).map (List.map G.parser)
 
 /-- number of authorization sessions in a request with tag ST_SESSIONS (walks the authorization area) -/
 def sessionsIn (req : Bytes) (nHandles : Nat) : Nat :=
